@@ -218,6 +218,54 @@ def range_ok(sizes, mag, *units) -> bool:
     return all(LO < v < HI for v in vals)
 
 
+def partials_ok(sizes, mag, src, dst) -> bool:
+    """A conversion is carried out as a chain of multiplications, one per pair of matched
+    factors, in an order that is the planner's business.  Whatever the order, every partial
+    product lies between |mag| x (all factors below one) and |mag| x (all factors above one),
+    taking the sizes of the source's factors and the inverse sizes of the target's one by one.
+    False when that interval reaches into the subnormals or towards overflow: the result may
+    then have lost precision on the way although both ends are ordinary numbers (inconclusive)."""
+    try:
+        x = abs(Fraction(mag))
+    except (ValueError, OverflowError, TypeError):
+        return False
+    if x == 0:
+        return True
+    lo = hi = x
+    for u, sign in ((src, 1), (dst, -1)):
+        p = sizes.unit_size(u.prefix * sizes.One, approx_mixed=True) if u.prefix.base else Fraction(1)
+        steps = [p]
+        for f, e in u.factors.items():
+            if f is sizes.One or f not in sizes.size:
+                continue
+            steps.append(abs(sizes.size[f]) ** e)
+        for st_ in steps:
+            if st_ is None or st_ == 0:
+                continue
+            v = st_ if sign == 1 else 1 / st_
+            if v < 1:
+                lo *= v
+            else:
+                hi *= v
+    return lo > Fraction(1, 10**295) and hi < Fraction(10) ** 295
+
+
+def legs_ok(sizes, mag, *units) -> bool:
+    """partials_ok for every leg of mag*units[0] -> units[1] -> units[2] ... (exact magnitudes)"""
+    try:
+        x = Fraction(mag)
+    except (ValueError, OverflowError, TypeError):
+        return False
+    for a, b in zip(units, units[1:]):
+        if not partials_ok(sizes, x, a, b):
+            return False
+        r = sizes.ratio(a, b)
+        if r is None:
+            return True
+        x = x * r
+    return True
+
+
 def unit_degree(c: Ctx, u) -> int:
     return domain.degree(u, c.One)
 
@@ -266,7 +314,25 @@ def mag_value(spec):
         if not d.is_finite():
             raise ValueError(v)
         return d
+    if t == "pow10":
+        # an int too long to be written out in a case file (or, beyond 4300 digits, to be
+        # rendered by str() at all): +-10**|v|
+        if isinstance(v, bool) or not isinstance(v, int) or abs(v) > 20000:
+            raise ValueError(v)
+        return 10 ** abs(v) if v >= 0 else -(10 ** abs(v))
     raise ValueError(t)
+
+
+def show(x) -> str:
+    """repr() that survives ints beyond the interpreter's int-to-str digit limit"""
+    try:
+        return repr(x)
+    except ValueError:
+        mag = getattr(x, "magnitude", x)
+        unit = getattr(x, "unit", None)
+        if isinstance(mag, int):
+            return f"<int of {len(hex(abs(mag))) * 1204 // 1000} digits>" + (f" {unit!r}" if unit is not None else "")
+        return f"<{type(x).__name__} whose repr() raises>"
 
 
 def mag_fraction(value) -> Fraction:
